@@ -64,6 +64,7 @@ func cmdCheck(args []string) {
 	noEvidence := fs.Bool("no-evidence", false, "do not write the evidence file")
 	verbose := fs.Bool("v", false, "verbose")
 	replaysFlag := fs.String("replays", "", "directory for replay files (default <verif>/replays)")
+	replayFile := fs.String("replay", "", "replay file of an earlier VIOLATION: re-decide just that obligation on the current tree")
 	// allow "check C05 --tier quick": move leading positional arguments behind the flags
 	var pos, rest []string
 	for i := 0; i < len(args); i++ {
@@ -78,6 +79,24 @@ func cmdCheck(args []string) {
 		}
 	}
 	fs.Parse(append(rest, pos...))
+	replayObl := ""
+	if *replayFile != "" {
+		b, err := os.ReadFile(*replayFile)
+		var rc map[string]interface{}
+		if err != nil || json.Unmarshal(b, &rc) != nil {
+			fmt.Fprintln(os.Stderr, "cannot read replay file", *replayFile)
+			os.Exit(2)
+		}
+		replayObl, _ = rc["obligation"].(string)
+		if p, _ := rc["property"].(string); p != "" && fs.NArg() < 1 {
+			fs.Parse(append(rest, p))
+		}
+		*noEvidence = true
+		fmt.Printf("replaying obligation %s (recorded result: %v)\n", replayObl, rc["result"])
+		if so, ok := rc["solver_output"].(string); ok && so != "" {
+			fmt.Println("recorded verifier output:\n" + so)
+		}
+	}
 	if fs.NArg() < 1 {
 		fmt.Fprintln(os.Stderr, "usage: govc check <property> [--tier quick|thorough]")
 		os.Exit(2)
@@ -160,6 +179,15 @@ func cmdCheck(args []string) {
 		vcs = append(vcs, vc)
 	}
 	extra := w.extraChecks(prop)
+	if replayObl != "" {
+		var keep []extraCheck
+		for _, x := range extra {
+			if x.Name == replayObl {
+				keep = append(keep, x)
+			}
+		}
+		extra = keep
+	}
 
 	var obls []*Obligation
 	var funcs []*funcReport
@@ -185,6 +213,9 @@ func cmdCheck(args []string) {
 			continue
 		}
 		for _, o := range vc.obls {
+			if replayObl != "" && canonObl(o.Name) != canonObl(replayObl) {
+				continue
+			}
 			if hasTag(o.Tags, prop) || o.Canary {
 				obls = append(obls, o)
 			}
@@ -265,6 +296,15 @@ func cmdCheck(args []string) {
 
 	// bounded stand-ins for assumed contracts of functions outside the verified subset
 	sres := runStandins(prop, *tier, *repo, *verifDir)
+	if replayObl != "" {
+		var keep []standinResult
+		for _, sr := range sres {
+			if "standin:"+sr.Name == replayObl {
+				keep = append(keep, sr)
+			}
+		}
+		sres = keep
+	}
 	var standinEv []map[string]interface{}
 	for _, sr := range sres {
 		standinEv = append(standinEv, map[string]interface{}{"function": sr.Name, "level": "bounded", "bound": sr.Bound, "stands_in_for": sr.StandsInFor, "passed": sr.OK, "wall_s": sr.Secs, "cmd": sr.Cmd})
@@ -334,10 +374,14 @@ func cmdCheck(args []string) {
 	}
 	// obligation-count guard against a harness that silently generates nothing
 	expected := loadExpected(filepath.Join(*verifDir, "contracts", "expected_counts.json"))
-	if min, ok := expected[prop]; ok && nObl+len(excluded)+nSkipped < min {
+	if min, ok := expected[prop]; ok && replayObl == "" && nObl+len(excluded)+nSkipped < min {
 		violations++
 		p := writeReplay("obligation-count", map[string]interface{}{"property": prop, "obligation": "obligation-count", "what": fmt.Sprintf("only %d obligations generated, expected at least %d", nObl+len(excluded), min)})
 		vioLines = append(vioLines, fmt.Sprintf("VIOLATION property=%s replay=%s no-failing-input-found", prop, p))
+	}
+	if replayObl != "" && nObl == 0 && violations == 0 && len(knownHit) == 0 {
+		fmt.Printf("replay: obligation %s is not generated from the current tree (renamed or removed); run the full check\n", replayObl)
+		os.Exit(2)
 	}
 	if nObl == 0 && violations == 0 {
 		violations++
